@@ -7,6 +7,7 @@
 #include <cstdlib>
 #include <cstring>
 #include <csignal>
+#include <signal.h>
 #include <functional>
 #include <unistd.h>
 #include <map>
@@ -116,8 +117,26 @@ namespace vf
 {
     inline void install_crash_handler()
     {
+        // the handler runs on its own stack, so that a stack overflow (runaway recursion) is attributed like any other crash
+        static char* alt = nullptr;
+        if (!alt)
+        {
+            const size_t sz = 1 << 18;
+            alt = static_cast<char*>(std::malloc(sz));
+            stack_t ss;
+            ss.ss_sp = alt; ss.ss_size = sz; ss.ss_flags = 0;
+            sigaltstack(&ss, nullptr);
+        }
         int sigs[] = {SIGSEGV, SIGABRT, SIGFPE, SIGBUS, SIGILL};
-        for (int s : sigs) std::signal(s, on_fatal_signal);
+        for (int s : sigs)
+        {
+            struct sigaction sa;
+            std::memset(&sa, 0, sizeof sa);
+            sa.sa_handler = on_fatal_signal;
+            sa.sa_flags = SA_ONSTACK | SA_NODEFER;
+            sigemptyset(&sa.sa_mask);
+            sigaction(s, &sa, nullptr);
+        }
         if (&__sanitizer_set_death_callback) __sanitizer_set_death_callback(on_sanitizer_death);
     }
 
